@@ -207,6 +207,9 @@ inst!(c04_occ_n8_k3, 14, occ::<8, 3>(&[1, 2, 3], &[1, 2, 3]));
 inst!(c04_occ_n8_k5, 14, occ::<8, 5>(&[1, 2, 3], &[1, 2, 3]));
 inst!(c04_occ_n8_k8, 14, occ::<8, 8>(&[1, 2, 3], &[1, 2, 3]));
 inst!(c04_occ_n8_k16, 14, occ::<8, 16>(&[1, 2, 3], &[1, 2, 3]));
+inst!(c04_occ_n10_k3, 16, occ::<10, 3>(&[1, 2, 3], &[1, 2, 3]));
+inst!(c04_occ_n10_k7, 16, occ::<10, 7>(&[1, 2, 3], &[1, 2, 3]));
+inst!(c04_occ_n12_k5, 18, occ::<12, 5>(&[1, 2, 3], &[1, 2, 3]));
 inst!(c04_occ_dollar_added_n4_k2, 42, occ::<4, 2>(&[35, 37], &[35, 36, 37]));
 inst!(c04_occ_dollar_member_n4_k2, 42, occ::<4, 2>(&[35, 36, 37], &[35, 36, 37]));
 // k > 64: look-ahead checkpoint branch
